@@ -92,7 +92,8 @@ Proof.
       assert (F : sinv (mkSS (if tk <=? ck then LCreate tk else LSleep tk) r st (Some ck) ck cn)).
       { destruct (Z.leb_spec tk ck); fin; lia. }
       destruct ln as [l|].
-      * destruct (Z.leb_spec tk l); inversion H; subst; clear H; [|exact F]. fin. lia.
+      * destruct (Z.leb_spec tk l); [|inversion H; subst; clear H; exact F].
+        destruct (l - tk <? max_overdue_ns); inversion H; subst; clear H; fin; lia.
       * inversion H; subst; clear H. exact F.
     + (* LSleep *)
       destruct I1 as [I1a I1b].
@@ -190,7 +191,7 @@ Proof.
   - destruct p; cbn in H.
     + destruct cn; inversion H; subst; exists []; reflexivity.
     + destruct r; inversion H; subst; exists []; reflexivity.
-    + destruct ln as [l|]; [destruct (tk <=? l)|]; inversion H; subst; exists []; reflexivity.
+    + destruct ln as [l|]; [destruct (tk <=? l); [destruct (l - tk <? max_overdue_ns)|]|]; inversion H; subst; exists []; reflexivity.
     + destruct cn; [destruct ((tk <=? ck) && negb pc)|destruct (tk <=? ck)]; inversion H; subst; exists []; reflexivity.
     + destruct ((length st =? 0)%nat && fail); inversion H; subst; [exists []; reflexivity|].
       exists [(length st, ck)]. reflexivity.
@@ -236,7 +237,7 @@ Proof.
     + left. destruct p; cbn in E.
       * destruct cn; inversion E; subst; exact C1.
       * destruct rs; inversion E; subst; exact C1.
-      * destruct ln as [l0|]; [destruct (tk <=? l0)|]; inversion E; subst; exact C1.
+      * destruct ln as [l0|]; [destruct (tk <=? l0); [destruct (l0 - tk <? max_overdue_ns)|]|]; inversion E; subst; exact C1.
       * destruct cn; [destruct ((tk <=? ck) && negb pc)|destruct (tk <=? ck)]; inversion E; subst; exact C1.
       * destruct ((length st =? 0)%nat && fail); inversion E; subst; exact C1.
       * discriminate.
@@ -266,7 +267,7 @@ Proof.
     destruct p; cbn [set_spc spc rest started lastNow clock cancelled] in H.
     + inversion H; subst; cbn in *. split; [discriminate|lia].
     + destruct r; inversion H; subst; cbn in *; (split; [discriminate|lia]).
-    + destruct ln as [l0|]; [destruct (tk <=? l0)|]; inversion H; subst; cbn in *;
+    + destruct ln as [l0|]; [destruct (tk <=? l0); [destruct (l0 - tk <? max_overdue_ns)|]|]; inversion H; subst; cbn in *;
         try destruct (tk <=? ck); cbn; (split; [discriminate|lia]).
     + destruct ((tk <=? ck) && negb pc); inversion H; subst; cbn in *; (split; [discriminate|lia]).
     + destruct ((length st =? 0)%nat && fail); inversion H; subst; cbn in *; (split; [discriminate|lia]).
